@@ -1,1 +1,172 @@
-pub fn main(_args: &[String]) { unimplemented!() }
+//! C14: RangeSet<T> against RangeSet.tla (state-graph replay).
+use font_types::Fixed;
+use fvcore::{arg_after, guarded, Report};
+use read_fonts::collections::RangeSet;
+use serde_json::{json, Value};
+use std::collections::{HashMap, VecDeque};
+use std::fmt::Debug;
+
+/// Position tables: each model position is an interval [lo, hi] of the value domain;
+/// consecutive positions are adjacent values.
+fn table(domain: &str) -> Vec<(i64, i64)> {
+    match domain {
+        "u32" => vec![(0, 0), (1, 1), (2, 99), (100, 100), (101, 0xFFFF_FFFD), (0xFFFF_FFFE, 0xFFFF_FFFE), (0xFFFF_FFFF, 0xFFFF_FFFF)],
+        "u16" => vec![(0, 0), (1, 1), (2, 99), (100, 100), (101, 65533), (65534, 65534), (65535, 65535)],
+        // raw 16.16 bits
+        "fixed" => vec![
+            (i32::MIN as i64, i32::MIN as i64),
+            (i32::MIN as i64 + 1, -2),
+            (-1, -1),
+            (0, 0),
+            (1, 65536),
+            (65537, i32::MAX as i64 - 1),
+            (i32::MAX as i64, i32::MAX as i64),
+        ],
+        d => panic!("unknown domain {d}"),
+    }
+}
+
+trait Val: Ord + Copy + Debug + Default + 'static {
+    fn mk(v: i64) -> Self;
+}
+impl Val for u32 {
+    fn mk(v: i64) -> Self {
+        v as u32
+    }
+}
+impl Val for u16 {
+    fn mk(v: i64) -> Self {
+        v as u16
+    }
+}
+impl Val for Fixed {
+    fn mk(v: i64) -> Self {
+        Fixed::from_bits(v as i32)
+    }
+}
+
+fn pairs(v: &Value) -> Vec<(usize, usize)> {
+    v.as_array().unwrap().iter().map(|r| (r[0].as_u64().unwrap() as usize, r[1].as_u64().unwrap() as usize)).collect()
+}
+
+macro_rules! run_impl { ($fname:ident, $T:ty) => {
+fn $fname(domain: &str, graph: &str, others: &Value, rep: &mut Report) {
+    type T = $T;
+    let tab = table(domain);
+    let conc = |ps: &[(usize, usize)]| -> Vec<(T, T)> { ps.iter().map(|(a, b)| (T::mk(tab[*a].0), T::mk(tab[*b].1))).collect() };
+    let operands: Vec<RangeSet<T>> = others
+        .as_array()
+        .unwrap()
+        .iter()
+        .map(|o| {
+            let mut s = RangeSet::<T>::default();
+            for (a, b) in pairs(o) {
+                s.insert(T::mk(tab[a].0)..=T::mk(tab[b].1));
+            }
+            s
+        })
+        .collect();
+    let mut states: HashMap<String, Value> = HashMap::new();
+    let mut edges: HashMap<String, Vec<(Value, String)>> = HashMap::new();
+    let mut n_edges = 0u64;
+    fvcore::tlc_stream(graph, &["STATE", "EDGE"], |tag, v| {
+        if tag == "STATE" {
+            states.insert(v["key"].as_str().unwrap().to_string(), v);
+        } else {
+            n_edges += 1;
+            edges.entry(v["pre"].as_str().unwrap().to_string()).or_default().push((v["op"].clone(), v["post"].as_str().unwrap().to_string()));
+        }
+    });
+    let check = |set: &RangeSet<T>, st: &Value| -> Result<(), String> {
+        let got: Vec<(T, T)> = set.iter().map(|r| (*r.start(), *r.end())).collect();
+        let exp = conc(&pairs(&st["iter"]));
+        if got != exp {
+            return Err(format!("iter() = {got:?}, specification {exp:?}"));
+        }
+        if set.is_empty() != st["empty"].as_bool().unwrap() {
+            return Err(format!("is_empty() = {}", set.is_empty()));
+        }
+        for (i, o) in operands.iter().enumerate() {
+            let exp = conc(&pairs(&st["isect"][i]));
+            let got: Vec<(T, T)> = set.intersection(o).map(|r| (*r.start(), *r.end())).collect();
+            let got2: Vec<(T, T)> = o.intersection(set).map(|r| (*r.start(), *r.end())).collect();
+            if got != exp || got2 != exp {
+                return Err(format!("intersection with operand {} = {got:?} / {got2:?}, specification {exp:?}", i + 1));
+            }
+        }
+        // a set rebuilt from its own ranges (FromIterator / Extend) is equal
+        let rebuilt: RangeSet<T> = set.iter().collect();
+        if &rebuilt != set {
+            return Err("set rebuilt from iter() differs".into());
+        }
+        Ok(())
+    };
+    let init_key = "{}".to_string();
+    let mut real: HashMap<String, RangeSet<T>> = HashMap::new();
+    let mut parent: HashMap<String, (String, Value)> = HashMap::new();
+    real.insert(init_key.clone(), RangeSet::<T>::default());
+    let mut queue = VecDeque::from([init_key]);
+    let mut done = 0u64;
+    let mut nontrivial = 0u64;
+    while let Some(key) = queue.pop_front() {
+        let Some(out) = edges.get(&key) else { continue };
+        for (op, post) in out {
+            done += 1;
+            let mut set = real[&key].clone();
+            let (a, b) = (op["a"].as_u64().unwrap() as usize, op["b"].as_u64().unwrap() as usize);
+            // a reversed model range (b < a) is also reversed concretely
+            let (lo, hi) = if a <= b { (T::mk(tab[a].0), T::mk(tab[b].1)) } else { (T::mk(tab[a].1), T::mk(tab[b].0)) };
+            let r = guarded(|| {
+                set.insert(lo..=hi);
+                check(&set, &states[post])
+            });
+            let bad = match r {
+                Ok(Ok(())) => None,
+                Ok(Err(e)) => Some(e),
+                Err(p) => Some(format!("panic: {p}")),
+            };
+            if let Some(e) = bad {
+                let mut h = vec![op.clone()];
+                let mut k = key.clone();
+                while let Some((p, o)) = parent.get(&k) {
+                    h.push(o.clone());
+                    k = p.clone();
+                }
+                h.reverse();
+                rep.violation(&e, json!({"kind": "rangeset-history", "domain": domain, "history": h}));
+                continue;
+            }
+            if key != *post {
+                nontrivial += 1;
+            }
+            if !real.contains_key(post) {
+                real.insert(post.clone(), set);
+                parent.insert(post.clone(), (key.clone(), op.clone()));
+                queue.push_back(post.clone());
+            }
+        }
+    }
+    rep.evaluations += done;
+    rep.traces += done;
+    rep.distinct += nontrivial;
+    rep.add("model_states", states.len() as u64);
+    rep.add("edges_replayed", done);
+    if done != n_edges || real.len() != states.len() {
+        rep.violation(&format!("could not walk whole graph: {done}/{n_edges} edges"), json!({"kind": "tool"}));
+    }
+    rep.sample(json!({"domain": domain, "edges": done}));
+}
+}; }
+run_impl!(run_u32, u32);
+run_impl!(run_u16, u16);
+run_impl!(run_fixed, Fixed);
+
+pub fn main(args: &[String]) {
+    let graph = arg_after(args, "--graph").expect("--graph");
+    let others: Value = serde_json::from_str(&arg_after(args, "--others").expect("--others")).unwrap();
+    let mut rep = Report::default();
+    run_u32("u32", &graph, &others, &mut rep);
+    run_u16("u16", &graph, &others, &mut rep);
+    run_fixed("fixed", &graph, &others, &mut rep);
+    rep.finish();
+}
